@@ -28,15 +28,49 @@ def inert_none_path(F, R, names, rule='Q1'):
             for pc, arg, node in feeds:
                 if arg[0] == 'arg':
                     input_kids.add(cp)
+        from .terms import nondelivering, resolve_by
+        lasts = set()
         for ex in m.up_exits:
-            nodeliv = any(c[0] == 'op' and c[1] == 'not' and c[2][0][0] == 'is_some' and c[2][0][1][0] == 'childlast' and c[2][0][1][1] in input_kids
-                          for c in ex.pc if isinstance(c, tuple))
-            if not nodeliv:
+            for t in list(ex.fields.values()) + [c for c in ex.pc if isinstance(c, tuple)]:
+                for x in subterms(t):
+                    if x[0] == 'is_some' and x[1][0] == 'childlast' and x[1][1] in input_kids:
+                        lasts.add(x)
+        for ex in m.up_exits:
+            if not input_kids:
+                break
+            if nondelivering(ex.pc, input_kids):
+                seen = True
+                for k, t in ex.fields.items():
+                    if t != ('in', k):
+                        bad.append(k)
                 continue
-            seen = True
+            # an exit that is also reachable when the inner view reports nothing: its writes must vanish under that assumption
+            feasible_none = True
+            for c in ex.pc:
+                if not isinstance(c, tuple) or c[0] == 'inloop':
+                    continue
+                cc = c
+                for l in lasts:
+                    cc = resolve_by(cc, l, False)
+                from .terms import eval3
+                if eval3(cc, {l: False for l in lasts}) is False:
+                    feasible_none = False
+            if not feasible_none:
+                continue
             for k, t in ex.fields.items():
-                if t != ('in', k):
-                    bad.append(k)
+                if t == ('in', k):
+                    continue
+                tt = t
+                for l in lasts:
+                    tt = resolve_by(tt, l, False)
+                if any(x in lasts for x in subterms(tt)) or tt != ('in', k):
+                    # still written when nothing is delivered
+                    if tt != ('in', k):
+                        bad.append(k)
+                else:
+                    seen = True
+            if any(any(x in lasts for x in subterms(t)) for t in ex.fields.values()):
+                seen = True
         gated = seen or not m.touched
         R.ob(rule, n, not bad and gated,
              'the exit on which the inner view reports nothing leaves every field unchanged' if (not bad and gated) else
@@ -73,9 +107,7 @@ def run_c12(F, R):
         ok = True
         for rule, msg, term in dom.complaints:
             # reviewed exception: Vst's own degenerate case std = 0 -> x (stated in the property) mixes degree 1 into a degree-0 view
-            if n == 'Vst' and rule == 'D-mix' and msg.startswith('returns'):
-                continue
-            if n == 'Vst' and rule == 'D-mix' and 'selects between' in msg and 'in.last' in term and 'Some(in.last)' in term:
+            if n == 'Vst' and rule == 'D-mix' and '[in last]' in msg and '(1 vs 0)' in msg or (n == 'Vst' and rule == 'D-mix' and '[in last]' in msg and '(0 vs 1)' in msg):
                 continue
             ok = False
             R.violation(rule, '%s:%s' % (n, _h(term)), '%s: %s' % (msg, term), v.file)
